@@ -3,6 +3,7 @@
 package docgen
 
 import (
+	"fmt"
 	"hash/fnv"
 	"strconv"
 	"strings"
@@ -456,4 +457,73 @@ func MemberDocs() []string {
 		}
 	}
 	return out
+}
+
+// StringUnits is the alphabet of JSON string content: every raw printable
+// ASCII byte, DEL, every two-character escape, \u escapes of every control
+// character and of the characters that quoting schemes treat differently,
+// surrogate pairs and lone surrogates, raw multi-byte UTF-8 of 2, 3 and 4
+// bytes, and byte sequences that are not UTF-8 (legal inside a JSON string
+// as far as the grammar is concerned).
+func StringUnits() []string {
+	var u []string
+	for b := 0x20; b <= 0x7f; b++ {
+		if b == '"' || b == '\\' {
+			continue
+		}
+		u = append(u, string([]byte{byte(b)}))
+	}
+	u = append(u, `\"`, `\\`, `\/`, `\b`, `\f`, `\n`, `\r`, `\t`)
+	for c := 0; c < 0x20; c++ {
+		u = append(u, fmt.Sprintf(`\u%04x`, c))
+	}
+	for _, c := range []int{0x7f, 0x80, 0x9f, 0xa0, 0xe9, 0x2028, 0x2029, 0xfeff, 0xfffd, 0xffff, 0x22, 0x5c, 0x2f} {
+		u = append(u, fmt.Sprintf(`\u%04x`, c))
+	}
+	esc := func(cs ...int) string {
+		s := ""
+		for _, c := range cs {
+			s += fmt.Sprintf(`\u%04X`, c)
+		}
+		return s
+	}
+	u = append(u, esc(0x1f), esc(0xe9), esc(0xd83d, 0xde00), esc(0xdb40, 0xdc01), esc(0xd800), esc(0xdc00), esc(0xd800)+"x")
+	for _, c := range []rune{0xe9, 0x80, 0x20ac, 0x2028, 0xfeff, 0xfffd, 0x1f600, 0xe0001, 0x10ffff} {
+		u = append(u, string(c))
+	}
+	u = append(u, "\x80", "\xc3", "\xff", "\xc0\xaf", "\xed\xa0\x80", "\xf4\x90\x80\x80")
+	return u
+}
+
+// StringDocs: every unit of StringUnits alone and between letters, and every
+// ordered pair of units, as a foreign member key and as a foreign member
+// value of a geometry; singles also as Feature id / property key / property
+// value and as a member of a child of a collection.
+func StringDocs() []string {
+	us := StringUnits()
+	var out []string
+	for _, a := range us {
+		for _, s := range []string{a, "x" + a + "y"} {
+			q := `"` + s + `"`
+			out = append(out, Obj("Point", `"coordinates":[1,2]`, q+`:1`))
+			out = append(out, Obj("Point", `"coordinates":[1,2]`, `"k":`+q))
+			out = append(out, Obj("Feature", `"geometry":`+Obj("Point", `"coordinates":[1,2]`), `"id":`+q+`,"properties":{`+q+`:`+q+`}`))
+			out = append(out, Obj("FeatureCollection", `"features":[`+Obj("Feature", `"geometry":`+Obj("LineString", `"coordinates":[[0,0],[1,1]]`, q+`:[`+q+`]`), `"properties":null`, q+`:{}`)+`]`, q+`:null`))
+		}
+	}
+	for _, a := range us {
+		for _, b := range us {
+			q := `"` + a + b + `"`
+			out = append(out, Obj("Point", `"coordinates":[1,2]`, q+`:1`))
+			out = append(out, Obj("LineString", `"coordinates":[[0,0],[1,1]]`, `"k":`+q))
+		}
+	}
+	return out
+}
+
+// ExtraDocs: the generated document families that follow LargeDocs in the
+// "large#i" numbering (append new families at the end only: known findings
+// refer to documents by index).
+func ExtraDocs() []string {
+	return append(append(NumberDocs(), MemberDocs()...), StringDocs()...)
 }
